@@ -38,7 +38,7 @@ Definition match_options (opts : list bytes) (nt : bool) (pos : nat) : option na
   end.
 
 (* MATCHRANGE: tries lengths len(to) down to len(from) *)
-Fixpoint match_range_from (from to : bytes) (nt : bool) (pos : nat) (i : nat) (k : nat) : option nat :=
+Fixpoint match_range_from (from to : bytes) (nt : bool) (pos : nat) (i : nat) (k : nat) {struct k} : option nat :=
   (* i = current length, k = number of lengths still to try *)
   match k with
   | O => None
